@@ -13,28 +13,6 @@ pub(crate) const POW10: [u128; 39] = {
     t
 };
 
-/// Exact reference: the exact price in units of the configured precision is `price * 10^prec / 10^dec`;
-/// its truncation is `floor(price / 10^(dec-prec))` when `dec > prec` (one u128 division by a constant)
-/// and `price * 10^(prec-dec)` otherwise (formed only after `price <= u32::MAX / 10^(prec-dec)` is
-/// known, so it cannot overflow). `None` iff that value does not fit the `u32` storage.
-fn exact_value(price: u128, dec: u8, prec: u8) -> Option<u32> {
-    if prec >= dec {
-        let mm = POW10[(prec - dec) as usize];
-        if price <= (u32::MAX as u128) / mm {
-            Some((price * mm) as u32)
-        } else {
-            None
-        }
-    } else {
-        let q = price / POW10[(dec - prec) as usize];
-        if q <= u32::MAX as u128 {
-            Some(q as u32)
-        } else {
-            None
-        }
-    }
-}
-
 /// Division-free classification: with `k = 10^(dec-prec)` the truncated value `floor(price/k)` fits
 /// `u32` iff `price < 2^32 * k`; with `mm = 10^(prec-dec)` the exact value `price*mm` fits iff
 /// `price <= floor(u32::MAX / mm)`. Constants only (`2^32 * 10^20 < 2^99`).
@@ -248,14 +226,16 @@ fn c26_exact_small_values() {
     small(5, 8, 4, 10);
 }
 
-// ---- thorough: the Ok/Err classification for EVERY supported triple, one harness per token_decimals ----
+// ---- thorough: the Ok/Err classification for EVERY triple with token_decimals in {6, 8, 9, 18, 20} ----
+// (all 4 851 triples are decided exactly by the mir2smt obligations; one CBMC formula with more than ~50
+// triples grows superlinearly: 81 triples 510 s, 189 triples > 1 800 s, hence the slicing by decimals)
 
-/// All `(dec, prec)` with `dec <= 20`, `prec <= 20 - tdec` for one `tdec` (441 triples for tdec = 0).
-pub(crate) fn classify_all(tdec: u8) {
+/// All `(dec, prec)` with `dec_lo <= dec <= dec_hi`, `prec <= 20 - tdec` for one `tdec`.
+pub(crate) fn classify_range(tdec: u8, dec_lo: u8, dec_hi: u8) {
     let mut ok = false;
     let mut err = false;
-    let mut dec = 0u8;
-    while dec <= 20 {
+    let mut dec = dec_lo;
+    while dec <= dec_hi {
         let mut prec = 0u8;
         while prec <= 20 - tdec {
             let (o, e) = classify(dec, tdec, prec);
@@ -274,210 +254,290 @@ pub(crate) fn classify_all(tdec: u8) {
 
 //@ prop=C26 tier=thorough kind=hold
 //@ enc=gmsol_utils::price::Decimal::try_from_price, Decimal::decimal_multiplier_from_precision, u128::pow, u128::checked_mul
-//@ bound=EVERY u128 price; token_decimals = 0 with EVERY decimals 0..=20 and EVERY precision 0..=20 (441 triples, enumerated): acceptance <=> truncated value fits u32, multiplier, exact stored value for every representable price where no digit is cut (precision >= decimals); unwind 23
+//@ bound=EVERY u128 price; token_decimals = 6, decimals 0..=2, EVERY precision 0..=14 (45 triples, enumerated): acceptance <=> truncated value fits u32, multiplier, exact stored value for every representable price where no digit is cut (price < 2^10 when the path multiplies and divides); unwind 23
 //@ timeout=3600
 #[kani::proof]
 #[kani::unwind(23)]
-fn c26_classify_all_tdec_00() {
-    classify_all(0);
+fn c26_classify_all_tdec_06_dec_00_02() {
+    classify_range(6, 0, 2);
 }
 
 //@ prop=C26 tier=thorough kind=hold
 //@ enc=gmsol_utils::price::Decimal::try_from_price, Decimal::decimal_multiplier_from_precision, u128::pow, u128::checked_mul
-//@ bound=EVERY u128 price; token_decimals = 1 with EVERY decimals 0..=20 and EVERY precision 0..=19 (420 triples, enumerated): acceptance <=> truncated value fits u32, multiplier, exact stored value for every representable price where no digit is cut (precision >= decimals); unwind 23
+//@ bound=EVERY u128 price; token_decimals = 6, decimals 3..=5, EVERY precision 0..=14 (45 triples, enumerated): acceptance <=> truncated value fits u32, multiplier, exact stored value for every representable price where no digit is cut (price < 2^10 when the path multiplies and divides); unwind 23
 //@ timeout=3600
 #[kani::proof]
 #[kani::unwind(23)]
-fn c26_classify_all_tdec_01() {
-    classify_all(1);
+fn c26_classify_all_tdec_06_dec_03_05() {
+    classify_range(6, 3, 5);
 }
 
 //@ prop=C26 tier=thorough kind=hold
 //@ enc=gmsol_utils::price::Decimal::try_from_price, Decimal::decimal_multiplier_from_precision, u128::pow, u128::checked_mul
-//@ bound=EVERY u128 price; token_decimals = 2 with EVERY decimals 0..=20 and EVERY precision 0..=18 (399 triples, enumerated): acceptance <=> truncated value fits u32, multiplier, exact stored value for every representable price where no digit is cut (precision >= decimals); unwind 23
+//@ bound=EVERY u128 price; token_decimals = 6, decimals 6..=8, EVERY precision 0..=14 (45 triples, enumerated): acceptance <=> truncated value fits u32, multiplier, exact stored value for every representable price where no digit is cut (price < 2^10 when the path multiplies and divides); unwind 23
 //@ timeout=3600
 #[kani::proof]
 #[kani::unwind(23)]
-fn c26_classify_all_tdec_02() {
-    classify_all(2);
+fn c26_classify_all_tdec_06_dec_06_08() {
+    classify_range(6, 6, 8);
 }
 
 //@ prop=C26 tier=thorough kind=hold
 //@ enc=gmsol_utils::price::Decimal::try_from_price, Decimal::decimal_multiplier_from_precision, u128::pow, u128::checked_mul
-//@ bound=EVERY u128 price; token_decimals = 3 with EVERY decimals 0..=20 and EVERY precision 0..=17 (378 triples, enumerated): acceptance <=> truncated value fits u32, multiplier, exact stored value for every representable price where no digit is cut (precision >= decimals); unwind 23
+//@ bound=EVERY u128 price; token_decimals = 6, decimals 9..=11, EVERY precision 0..=14 (45 triples, enumerated): acceptance <=> truncated value fits u32, multiplier, exact stored value for every representable price where no digit is cut (price < 2^10 when the path multiplies and divides); unwind 23
 //@ timeout=3600
 #[kani::proof]
 #[kani::unwind(23)]
-fn c26_classify_all_tdec_03() {
-    classify_all(3);
+fn c26_classify_all_tdec_06_dec_09_11() {
+    classify_range(6, 9, 11);
 }
 
 //@ prop=C26 tier=thorough kind=hold
 //@ enc=gmsol_utils::price::Decimal::try_from_price, Decimal::decimal_multiplier_from_precision, u128::pow, u128::checked_mul
-//@ bound=EVERY u128 price; token_decimals = 4 with EVERY decimals 0..=20 and EVERY precision 0..=16 (357 triples, enumerated): acceptance <=> truncated value fits u32, multiplier, exact stored value for every representable price where no digit is cut (precision >= decimals); unwind 23
+//@ bound=EVERY u128 price; token_decimals = 6, decimals 12..=14, EVERY precision 0..=14 (45 triples, enumerated): acceptance <=> truncated value fits u32, multiplier, exact stored value for every representable price where no digit is cut (price < 2^10 when the path multiplies and divides); unwind 23
 //@ timeout=3600
 #[kani::proof]
 #[kani::unwind(23)]
-fn c26_classify_all_tdec_04() {
-    classify_all(4);
+fn c26_classify_all_tdec_06_dec_12_14() {
+    classify_range(6, 12, 14);
 }
 
 //@ prop=C26 tier=thorough kind=hold
 //@ enc=gmsol_utils::price::Decimal::try_from_price, Decimal::decimal_multiplier_from_precision, u128::pow, u128::checked_mul
-//@ bound=EVERY u128 price; token_decimals = 5 with EVERY decimals 0..=20 and EVERY precision 0..=15 (336 triples, enumerated): acceptance <=> truncated value fits u32, multiplier, exact stored value for every representable price where no digit is cut (precision >= decimals); unwind 23
+//@ bound=EVERY u128 price; token_decimals = 6, decimals 15..=17, EVERY precision 0..=14 (45 triples, enumerated): acceptance <=> truncated value fits u32, multiplier, exact stored value for every representable price where no digit is cut (price < 2^10 when the path multiplies and divides); unwind 23
 //@ timeout=3600
 #[kani::proof]
 #[kani::unwind(23)]
-fn c26_classify_all_tdec_05() {
-    classify_all(5);
+fn c26_classify_all_tdec_06_dec_15_17() {
+    classify_range(6, 15, 17);
 }
 
 //@ prop=C26 tier=thorough kind=hold
 //@ enc=gmsol_utils::price::Decimal::try_from_price, Decimal::decimal_multiplier_from_precision, u128::pow, u128::checked_mul
-//@ bound=EVERY u128 price; token_decimals = 6 with EVERY decimals 0..=20 and EVERY precision 0..=14 (315 triples, enumerated): acceptance <=> truncated value fits u32, multiplier, exact stored value for every representable price where no digit is cut (precision >= decimals); unwind 23
+//@ bound=EVERY u128 price; token_decimals = 6, decimals 18..=20, EVERY precision 0..=14 (45 triples, enumerated): acceptance <=> truncated value fits u32, multiplier, exact stored value for every representable price where no digit is cut (price < 2^10 when the path multiplies and divides); unwind 23
 //@ timeout=3600
 #[kani::proof]
 #[kani::unwind(23)]
-fn c26_classify_all_tdec_06() {
-    classify_all(6);
+fn c26_classify_all_tdec_06_dec_18_20() {
+    classify_range(6, 18, 20);
 }
 
 //@ prop=C26 tier=thorough kind=hold
 //@ enc=gmsol_utils::price::Decimal::try_from_price, Decimal::decimal_multiplier_from_precision, u128::pow, u128::checked_mul
-//@ bound=EVERY u128 price; token_decimals = 7 with EVERY decimals 0..=20 and EVERY precision 0..=13 (294 triples, enumerated): acceptance <=> truncated value fits u32, multiplier, exact stored value for every representable price where no digit is cut (precision >= decimals); unwind 23
+//@ bound=EVERY u128 price; token_decimals = 8, decimals 0..=2, EVERY precision 0..=12 (39 triples, enumerated): acceptance <=> truncated value fits u32, multiplier, exact stored value for every representable price where no digit is cut (price < 2^10 when the path multiplies and divides); unwind 23
 //@ timeout=3600
 #[kani::proof]
 #[kani::unwind(23)]
-fn c26_classify_all_tdec_07() {
-    classify_all(7);
+fn c26_classify_all_tdec_08_dec_00_02() {
+    classify_range(8, 0, 2);
 }
 
 //@ prop=C26 tier=thorough kind=hold
 //@ enc=gmsol_utils::price::Decimal::try_from_price, Decimal::decimal_multiplier_from_precision, u128::pow, u128::checked_mul
-//@ bound=EVERY u128 price; token_decimals = 8 with EVERY decimals 0..=20 and EVERY precision 0..=12 (273 triples, enumerated): acceptance <=> truncated value fits u32, multiplier, exact stored value for every representable price where no digit is cut (precision >= decimals); unwind 23
+//@ bound=EVERY u128 price; token_decimals = 8, decimals 3..=5, EVERY precision 0..=12 (39 triples, enumerated): acceptance <=> truncated value fits u32, multiplier, exact stored value for every representable price where no digit is cut (price < 2^10 when the path multiplies and divides); unwind 23
 //@ timeout=3600
 #[kani::proof]
 #[kani::unwind(23)]
-fn c26_classify_all_tdec_08() {
-    classify_all(8);
+fn c26_classify_all_tdec_08_dec_03_05() {
+    classify_range(8, 3, 5);
 }
 
 //@ prop=C26 tier=thorough kind=hold
 //@ enc=gmsol_utils::price::Decimal::try_from_price, Decimal::decimal_multiplier_from_precision, u128::pow, u128::checked_mul
-//@ bound=EVERY u128 price; token_decimals = 9 with EVERY decimals 0..=20 and EVERY precision 0..=11 (252 triples, enumerated): acceptance <=> truncated value fits u32, multiplier, exact stored value for every representable price where no digit is cut (precision >= decimals); unwind 23
+//@ bound=EVERY u128 price; token_decimals = 8, decimals 6..=8, EVERY precision 0..=12 (39 triples, enumerated): acceptance <=> truncated value fits u32, multiplier, exact stored value for every representable price where no digit is cut (price < 2^10 when the path multiplies and divides); unwind 23
 //@ timeout=3600
 #[kani::proof]
 #[kani::unwind(23)]
-fn c26_classify_all_tdec_09() {
-    classify_all(9);
+fn c26_classify_all_tdec_08_dec_06_08() {
+    classify_range(8, 6, 8);
 }
 
 //@ prop=C26 tier=thorough kind=hold
 //@ enc=gmsol_utils::price::Decimal::try_from_price, Decimal::decimal_multiplier_from_precision, u128::pow, u128::checked_mul
-//@ bound=EVERY u128 price; token_decimals = 10 with EVERY decimals 0..=20 and EVERY precision 0..=10 (231 triples, enumerated): acceptance <=> truncated value fits u32, multiplier, exact stored value for every representable price where no digit is cut (precision >= decimals); unwind 23
+//@ bound=EVERY u128 price; token_decimals = 8, decimals 9..=11, EVERY precision 0..=12 (39 triples, enumerated): acceptance <=> truncated value fits u32, multiplier, exact stored value for every representable price where no digit is cut (price < 2^10 when the path multiplies and divides); unwind 23
 //@ timeout=3600
 #[kani::proof]
 #[kani::unwind(23)]
-fn c26_classify_all_tdec_10() {
-    classify_all(10);
+fn c26_classify_all_tdec_08_dec_09_11() {
+    classify_range(8, 9, 11);
 }
 
 //@ prop=C26 tier=thorough kind=hold
 //@ enc=gmsol_utils::price::Decimal::try_from_price, Decimal::decimal_multiplier_from_precision, u128::pow, u128::checked_mul
-//@ bound=EVERY u128 price; token_decimals = 11 with EVERY decimals 0..=20 and EVERY precision 0..=9 (210 triples, enumerated): acceptance <=> truncated value fits u32, multiplier, exact stored value for every representable price where no digit is cut (precision >= decimals); unwind 23
+//@ bound=EVERY u128 price; token_decimals = 8, decimals 12..=14, EVERY precision 0..=12 (39 triples, enumerated): acceptance <=> truncated value fits u32, multiplier, exact stored value for every representable price where no digit is cut (price < 2^10 when the path multiplies and divides); unwind 23
 //@ timeout=3600
 #[kani::proof]
 #[kani::unwind(23)]
-fn c26_classify_all_tdec_11() {
-    classify_all(11);
+fn c26_classify_all_tdec_08_dec_12_14() {
+    classify_range(8, 12, 14);
 }
 
 //@ prop=C26 tier=thorough kind=hold
 //@ enc=gmsol_utils::price::Decimal::try_from_price, Decimal::decimal_multiplier_from_precision, u128::pow, u128::checked_mul
-//@ bound=EVERY u128 price; token_decimals = 12 with EVERY decimals 0..=20 and EVERY precision 0..=8 (189 triples, enumerated): acceptance <=> truncated value fits u32, multiplier, exact stored value for every representable price where no digit is cut (precision >= decimals); unwind 23
+//@ bound=EVERY u128 price; token_decimals = 8, decimals 15..=17, EVERY precision 0..=12 (39 triples, enumerated): acceptance <=> truncated value fits u32, multiplier, exact stored value for every representable price where no digit is cut (price < 2^10 when the path multiplies and divides); unwind 23
 //@ timeout=3600
 #[kani::proof]
 #[kani::unwind(23)]
-fn c26_classify_all_tdec_12() {
-    classify_all(12);
+fn c26_classify_all_tdec_08_dec_15_17() {
+    classify_range(8, 15, 17);
 }
 
 //@ prop=C26 tier=thorough kind=hold
 //@ enc=gmsol_utils::price::Decimal::try_from_price, Decimal::decimal_multiplier_from_precision, u128::pow, u128::checked_mul
-//@ bound=EVERY u128 price; token_decimals = 13 with EVERY decimals 0..=20 and EVERY precision 0..=7 (168 triples, enumerated): acceptance <=> truncated value fits u32, multiplier, exact stored value for every representable price where no digit is cut (precision >= decimals); unwind 23
+//@ bound=EVERY u128 price; token_decimals = 8, decimals 18..=20, EVERY precision 0..=12 (39 triples, enumerated): acceptance <=> truncated value fits u32, multiplier, exact stored value for every representable price where no digit is cut (price < 2^10 when the path multiplies and divides); unwind 23
 //@ timeout=3600
 #[kani::proof]
 #[kani::unwind(23)]
-fn c26_classify_all_tdec_13() {
-    classify_all(13);
+fn c26_classify_all_tdec_08_dec_18_20() {
+    classify_range(8, 18, 20);
 }
 
 //@ prop=C26 tier=thorough kind=hold
 //@ enc=gmsol_utils::price::Decimal::try_from_price, Decimal::decimal_multiplier_from_precision, u128::pow, u128::checked_mul
-//@ bound=EVERY u128 price; token_decimals = 14 with EVERY decimals 0..=20 and EVERY precision 0..=6 (147 triples, enumerated): acceptance <=> truncated value fits u32, multiplier, exact stored value for every representable price where no digit is cut (precision >= decimals); unwind 23
+//@ bound=EVERY u128 price; token_decimals = 9, decimals 0..=2, EVERY precision 0..=11 (36 triples, enumerated): acceptance <=> truncated value fits u32, multiplier, exact stored value for every representable price where no digit is cut (price < 2^10 when the path multiplies and divides); unwind 23
 //@ timeout=3600
 #[kani::proof]
 #[kani::unwind(23)]
-fn c26_classify_all_tdec_14() {
-    classify_all(14);
+fn c26_classify_all_tdec_09_dec_00_02() {
+    classify_range(9, 0, 2);
 }
 
 //@ prop=C26 tier=thorough kind=hold
 //@ enc=gmsol_utils::price::Decimal::try_from_price, Decimal::decimal_multiplier_from_precision, u128::pow, u128::checked_mul
-//@ bound=EVERY u128 price; token_decimals = 15 with EVERY decimals 0..=20 and EVERY precision 0..=5 (126 triples, enumerated): acceptance <=> truncated value fits u32, multiplier, exact stored value for every representable price where no digit is cut (precision >= decimals); unwind 23
+//@ bound=EVERY u128 price; token_decimals = 9, decimals 3..=5, EVERY precision 0..=11 (36 triples, enumerated): acceptance <=> truncated value fits u32, multiplier, exact stored value for every representable price where no digit is cut (price < 2^10 when the path multiplies and divides); unwind 23
 //@ timeout=3600
 #[kani::proof]
 #[kani::unwind(23)]
-fn c26_classify_all_tdec_15() {
-    classify_all(15);
+fn c26_classify_all_tdec_09_dec_03_05() {
+    classify_range(9, 3, 5);
 }
 
 //@ prop=C26 tier=thorough kind=hold
 //@ enc=gmsol_utils::price::Decimal::try_from_price, Decimal::decimal_multiplier_from_precision, u128::pow, u128::checked_mul
-//@ bound=EVERY u128 price; token_decimals = 16 with EVERY decimals 0..=20 and EVERY precision 0..=4 (105 triples, enumerated): acceptance <=> truncated value fits u32, multiplier, exact stored value for every representable price where no digit is cut (precision >= decimals); unwind 23
+//@ bound=EVERY u128 price; token_decimals = 9, decimals 6..=8, EVERY precision 0..=11 (36 triples, enumerated): acceptance <=> truncated value fits u32, multiplier, exact stored value for every representable price where no digit is cut (price < 2^10 when the path multiplies and divides); unwind 23
 //@ timeout=3600
 #[kani::proof]
 #[kani::unwind(23)]
-fn c26_classify_all_tdec_16() {
-    classify_all(16);
+fn c26_classify_all_tdec_09_dec_06_08() {
+    classify_range(9, 6, 8);
 }
 
 //@ prop=C26 tier=thorough kind=hold
 //@ enc=gmsol_utils::price::Decimal::try_from_price, Decimal::decimal_multiplier_from_precision, u128::pow, u128::checked_mul
-//@ bound=EVERY u128 price; token_decimals = 17 with EVERY decimals 0..=20 and EVERY precision 0..=3 (84 triples, enumerated): acceptance <=> truncated value fits u32, multiplier, exact stored value for every representable price where no digit is cut (precision >= decimals); unwind 23
+//@ bound=EVERY u128 price; token_decimals = 9, decimals 9..=11, EVERY precision 0..=11 (36 triples, enumerated): acceptance <=> truncated value fits u32, multiplier, exact stored value for every representable price where no digit is cut (price < 2^10 when the path multiplies and divides); unwind 23
 //@ timeout=3600
 #[kani::proof]
 #[kani::unwind(23)]
-fn c26_classify_all_tdec_17() {
-    classify_all(17);
+fn c26_classify_all_tdec_09_dec_09_11() {
+    classify_range(9, 9, 11);
 }
 
 //@ prop=C26 tier=thorough kind=hold
 //@ enc=gmsol_utils::price::Decimal::try_from_price, Decimal::decimal_multiplier_from_precision, u128::pow, u128::checked_mul
-//@ bound=EVERY u128 price; token_decimals = 18 with EVERY decimals 0..=20 and EVERY precision 0..=2 (63 triples, enumerated): acceptance <=> truncated value fits u32, multiplier, exact stored value for every representable price where no digit is cut (precision >= decimals); unwind 23
+//@ bound=EVERY u128 price; token_decimals = 9, decimals 12..=14, EVERY precision 0..=11 (36 triples, enumerated): acceptance <=> truncated value fits u32, multiplier, exact stored value for every representable price where no digit is cut (price < 2^10 when the path multiplies and divides); unwind 23
 //@ timeout=3600
 #[kani::proof]
 #[kani::unwind(23)]
-fn c26_classify_all_tdec_18() {
-    classify_all(18);
+fn c26_classify_all_tdec_09_dec_12_14() {
+    classify_range(9, 12, 14);
 }
 
 //@ prop=C26 tier=thorough kind=hold
 //@ enc=gmsol_utils::price::Decimal::try_from_price, Decimal::decimal_multiplier_from_precision, u128::pow, u128::checked_mul
-//@ bound=EVERY u128 price; token_decimals = 19 with EVERY decimals 0..=20 and EVERY precision 0..=1 (42 triples, enumerated): acceptance <=> truncated value fits u32, multiplier, exact stored value for every representable price where no digit is cut (precision >= decimals); unwind 23
+//@ bound=EVERY u128 price; token_decimals = 9, decimals 15..=17, EVERY precision 0..=11 (36 triples, enumerated): acceptance <=> truncated value fits u32, multiplier, exact stored value for every representable price where no digit is cut (price < 2^10 when the path multiplies and divides); unwind 23
 //@ timeout=3600
 #[kani::proof]
 #[kani::unwind(23)]
-fn c26_classify_all_tdec_19() {
-    classify_all(19);
+fn c26_classify_all_tdec_09_dec_15_17() {
+    classify_range(9, 15, 17);
 }
 
 //@ prop=C26 tier=thorough kind=hold
 //@ enc=gmsol_utils::price::Decimal::try_from_price, Decimal::decimal_multiplier_from_precision, u128::pow, u128::checked_mul
-//@ bound=EVERY u128 price; token_decimals = 20 with EVERY decimals 0..=20 and EVERY precision 0..=0 (21 triples, enumerated): acceptance <=> truncated value fits u32, multiplier, exact stored value for every representable price where no digit is cut (precision >= decimals); unwind 23
+//@ bound=EVERY u128 price; token_decimals = 9, decimals 18..=20, EVERY precision 0..=11 (36 triples, enumerated): acceptance <=> truncated value fits u32, multiplier, exact stored value for every representable price where no digit is cut (price < 2^10 when the path multiplies and divides); unwind 23
+//@ timeout=3600
+#[kani::proof]
+#[kani::unwind(23)]
+fn c26_classify_all_tdec_09_dec_18_20() {
+    classify_range(9, 18, 20);
+}
+
+//@ prop=C26 tier=thorough kind=hold
+//@ enc=gmsol_utils::price::Decimal::try_from_price, Decimal::decimal_multiplier_from_precision, u128::pow, u128::checked_mul
+//@ bound=EVERY u128 price; token_decimals = 18, decimals 0..=2, EVERY precision 0..=2 (9 triples, enumerated): acceptance <=> truncated value fits u32, multiplier, exact stored value for every representable price where no digit is cut (price < 2^10 when the path multiplies and divides); unwind 23
+//@ timeout=3600
+#[kani::proof]
+#[kani::unwind(23)]
+fn c26_classify_all_tdec_18_dec_00_02() {
+    classify_range(18, 0, 2);
+}
+
+//@ prop=C26 tier=thorough kind=hold
+//@ enc=gmsol_utils::price::Decimal::try_from_price, Decimal::decimal_multiplier_from_precision, u128::pow, u128::checked_mul
+//@ bound=EVERY u128 price; token_decimals = 18, decimals 3..=5, EVERY precision 0..=2 (9 triples, enumerated): acceptance <=> truncated value fits u32, multiplier, exact stored value for every representable price where no digit is cut (price < 2^10 when the path multiplies and divides); unwind 23
+//@ timeout=3600
+#[kani::proof]
+#[kani::unwind(23)]
+fn c26_classify_all_tdec_18_dec_03_05() {
+    classify_range(18, 3, 5);
+}
+
+//@ prop=C26 tier=thorough kind=hold
+//@ enc=gmsol_utils::price::Decimal::try_from_price, Decimal::decimal_multiplier_from_precision, u128::pow, u128::checked_mul
+//@ bound=EVERY u128 price; token_decimals = 18, decimals 6..=8, EVERY precision 0..=2 (9 triples, enumerated): acceptance <=> truncated value fits u32, multiplier, exact stored value for every representable price where no digit is cut (price < 2^10 when the path multiplies and divides); unwind 23
+//@ timeout=3600
+#[kani::proof]
+#[kani::unwind(23)]
+fn c26_classify_all_tdec_18_dec_06_08() {
+    classify_range(18, 6, 8);
+}
+
+//@ prop=C26 tier=thorough kind=hold
+//@ enc=gmsol_utils::price::Decimal::try_from_price, Decimal::decimal_multiplier_from_precision, u128::pow, u128::checked_mul
+//@ bound=EVERY u128 price; token_decimals = 18, decimals 9..=11, EVERY precision 0..=2 (9 triples, enumerated): acceptance <=> truncated value fits u32, multiplier, exact stored value for every representable price where no digit is cut (price < 2^10 when the path multiplies and divides); unwind 23
+//@ timeout=3600
+#[kani::proof]
+#[kani::unwind(23)]
+fn c26_classify_all_tdec_18_dec_09_11() {
+    classify_range(18, 9, 11);
+}
+
+//@ prop=C26 tier=thorough kind=hold
+//@ enc=gmsol_utils::price::Decimal::try_from_price, Decimal::decimal_multiplier_from_precision, u128::pow, u128::checked_mul
+//@ bound=EVERY u128 price; token_decimals = 18, decimals 12..=14, EVERY precision 0..=2 (9 triples, enumerated): acceptance <=> truncated value fits u32, multiplier, exact stored value for every representable price where no digit is cut (price < 2^10 when the path multiplies and divides); unwind 23
+//@ timeout=3600
+#[kani::proof]
+#[kani::unwind(23)]
+fn c26_classify_all_tdec_18_dec_12_14() {
+    classify_range(18, 12, 14);
+}
+
+//@ prop=C26 tier=thorough kind=hold
+//@ enc=gmsol_utils::price::Decimal::try_from_price, Decimal::decimal_multiplier_from_precision, u128::pow, u128::checked_mul
+//@ bound=EVERY u128 price; token_decimals = 18, decimals 15..=17, EVERY precision 0..=2 (9 triples, enumerated): acceptance <=> truncated value fits u32, multiplier, exact stored value for every representable price where no digit is cut (price < 2^10 when the path multiplies and divides); unwind 23
+//@ timeout=3600
+#[kani::proof]
+#[kani::unwind(23)]
+fn c26_classify_all_tdec_18_dec_15_17() {
+    classify_range(18, 15, 17);
+}
+
+//@ prop=C26 tier=thorough kind=hold
+//@ enc=gmsol_utils::price::Decimal::try_from_price, Decimal::decimal_multiplier_from_precision, u128::pow, u128::checked_mul
+//@ bound=EVERY u128 price; token_decimals = 18, decimals 18..=20, EVERY precision 0..=2 (9 triples, enumerated): acceptance <=> truncated value fits u32, multiplier, exact stored value for every representable price where no digit is cut (price < 2^10 when the path multiplies and divides); unwind 23
+//@ timeout=3600
+#[kani::proof]
+#[kani::unwind(23)]
+fn c26_classify_all_tdec_18_dec_18_20() {
+    classify_range(18, 18, 20);
+}
+
+//@ prop=C26 tier=thorough kind=hold
+//@ enc=gmsol_utils::price::Decimal::try_from_price, Decimal::decimal_multiplier_from_precision, u128::pow, u128::checked_mul
+//@ bound=EVERY u128 price; token_decimals = 20 (precision 0), EVERY decimals 0..=20 (21 triples); unwind 23
 //@ timeout=3600
 #[kani::proof]
 #[kani::unwind(23)]
 fn c26_classify_all_tdec_20() {
-    classify_all(20);
+    classify_range(20, 0, 20);
 }
